@@ -98,6 +98,10 @@ func Load(blob []byte) (*PatchSet, error) {
 	} else if h.Version != 1 {
 		return nil, fmt.Errorf("unsupported binpatch version %d", h.Version)
 	}
+	// each patch has a 16 byte header, so the count can't exceed what is left of the blob
+	if int64(h.NumPatches)*16 > int64(r.Len()) {
+		return nil, io.ErrUnexpectedEOF
+	}
 	num := int(h.NumPatches)
 	p := &PatchSet{
 		Patches: make([]PatchHeader, num),
@@ -107,6 +111,9 @@ func Load(blob []byte) (*PatchSet, error) {
 		return nil, err
 	}
 	for i, hdr := range p.Patches {
+		if int64(hdr.NewSize) > int64(r.Len()) {
+			return nil, io.ErrUnexpectedEOF
+		}
 		p.Blobs[i] = make([]byte, int(hdr.NewSize))
 		if _, err := io.ReadFull(r, p.Blobs[i]); err != nil {
 			return nil, err
